@@ -41,7 +41,7 @@
    attribute or start box (an attribute there restyles the last boxed run; see notes). *)
 From Coq Require Import List ZArith NArith Bool.
 From Astisub Require Import Kit.Base Kit.Str Gen.TtxTables Model.TtxRow Model.Ttx Model.TtxSpec.
-From Astisub Require Import Proofs.TtxTables Proofs.TtxTotal Proofs.TtxRowProofs Proofs.TtxCodec Proofs.TtxSteps Proofs.TtxStream Proofs.TtxWitness.
+From Astisub Require Import Model.TtxHam Proofs.TtxHamProofs Model.TtxStd Proofs.TtxStdProofs Proofs.FuelTtx Proofs.TtxTables Proofs.TtxTotal Proofs.TtxRowProofs Proofs.TtxCodec Proofs.TtxSteps Proofs.TtxStream Proofs.TtxWitness.
 Import ListNotations.
 Open Scope N_scope.
 
@@ -183,16 +183,39 @@ Theorem C06_enhancement_packets : forall fl mag0 pn0 mag pkt payload, 1 <= mag <
   /\ unselected_ok (3, enc_packet fl mag pkt payload) = true.
 Proof. exact enhancement_benign. Qed.
 Print Assumptions C06_enhancement_packets.
-Theorem C06_default_designation_packets : forall fl mag0 pkt dc rest, 1 <= mag0 <= 8 -> pkt = 28 \/ pkt = 29 -> dc = 0 \/ dc = 4 ->
-  neutral_unit mag0 (3, enc_packet fl mag0 pkt (ham84_enc dc :: 0 :: 0 :: 0 :: rest)) = true.
+Theorem C06_default_designation_packets : forall fl mag0 pkt dc d rest, 1 <= mag0 <= 8 -> dc = 0 \/ dc = 4 -> d < 2 ^ 18 ->
+  pkt = 29 \/ (pkt = 28 /\ N.land d 15 = 0) -> triplet_key d = 0 ->
+  neutral_unit mag0 (3, enc_packet fl mag0 pkt (desig_payload dc (ham2418_word d) rest)) = true.
 Proof. exact default_designation_neutral. Qed.
 Print Assumptions C06_default_designation_packets.
-Theorem C06_designation_packets : forall fl mag0 pkt dc t0 t1 t2 rest, 1 <= mag0 <= 8 -> dc = 0 \/ dc = 4 ->
-  pkt = 29 \/ (pkt = 28 /\ N.land (triplet_of [t0; t1; t2]) 15 = 0) ->
-  desig_ok mag0 (3, enc_packet fl mag0 pkt (ham84_enc dc :: t0 :: t1 :: t2 :: rest)) = true
-  /\ desig_of (3, enc_packet fl mag0 pkt (ham84_enc dc :: t0 :: t1 :: t2 :: rest)) = (pkt, triplet_of [t0; t1; t2]).
+(* Hamming 24/18 (Model/TtxHam.v, written from ETS 300 706 8.3; the reader's decoder teletextHamming2418Decode is tied to it
+   by the correspondence suites): the first triplet of X/28 and M/29 packets is decoded, not read raw (repair of the defect
+   "designation packets of a real broadcast stream are misread", notes/C06.md).  For all 2^18 data words: round trip, any one
+   of the 24 bits inverted is corrected, any two are rejected. *)
+Theorem C06_hamming2418_roundtrip : forall d, d < 2 ^ 18 -> ham2418_dec_word (ham2418_word d) = Some d.
+Proof. exact ham2418_word_roundtrip. Qed.
+Print Assumptions C06_hamming2418_roundtrip.
+Theorem C06_hamming2418_single_error : forall d p, d < 2 ^ 18 -> (p < 24)%nat ->
+  ham2418_dec_word (N.lxor (ham2418_word d) (2 ^ N.of_nat p)) = Some d.
+Proof. exact ham2418_word_single_error. Qed.
+Print Assumptions C06_hamming2418_single_error.
+Theorem C06_hamming2418_double_error : forall d p q, d < 2 ^ 18 -> (p < 24)%nat -> (q < 24)%nat -> p <> q ->
+  ham2418_dec_word (N.lxor (N.lxor (ham2418_word d) (2 ^ N.of_nat p)) (2 ^ N.of_nat q)) = None.
+Proof. exact ham2418_word_double_error. Qed.
+Print Assumptions C06_hamming2418_double_error.
+(* a designation packet as a standard-conformant encoder emits it (designation code 0 or 4, first triplet = 18 data bits
+   d under Hamming 24/18, each byte most significant bit first), also with one inverted bit, records the designation d *)
+Theorem C06_designation_packets : forall fl mag0 pkt dc d rest (err : option nat), 1 <= mag0 <= 8 -> dc = 0 \/ dc = 4 -> d < 2 ^ 18 ->
+  pkt = 29 \/ (pkt = 28 /\ N.land d 15 = 0) -> match err with Some p => (p < 24)%nat | None => True end ->
+  let w := match err with Some p => N.lxor (ham2418_word d) (2 ^ N.of_nat p) | None => ham2418_word d end in
+  desig_ok mag0 (3, enc_packet fl mag0 pkt (desig_payload dc w rest)) = true
+  /\ desig_of (3, enc_packet fl mag0 pkt (desig_payload dc w rest)) = (pkt, d).
 Proof. exact designation_unit. Qed.
 Print Assumptions C06_designation_packets.
+Theorem C06_damaged_designation_packets : forall pkt dc d rest p q, d < 2 ^ 18 -> (p < 24)%nat -> (q < 24)%nat -> p <> q ->
+  triplet_inert pkt (desig_payload dc (N.lxor (N.lxor (ham2418_word d) (2 ^ N.of_nat p)) (2 ^ N.of_nat q)) rest) = true.
+Proof. exact damaged_designation_inert. Qed.
+Print Assumptions C06_damaged_designation_packets.
 Theorem C06_parallel_mode_pages : forall fl mag0 pn0 mag h, 1 <= mag <= 8 -> mag <> mag0 -> hdr_ok h = true ->
   negb ((h_tens h =? 15) && (h_units h =? 15)) = true -> h_serial h = false ->
   benign mag0 pn0 (hdr_unit fl mag h) = true.
@@ -214,3 +237,33 @@ Print Assumptions C06_hex_pages_are_other_pages.
 Theorem C06_total : forall page ds site, ttx_feed page ds <> Panic site.
 Proof. exact ttx_feed_no_panic. Qed.
 Print Assumptions C06_total.
+
+(* Fuel audit (Proofs/FuelTtx.v): ttx_units, on which C06_units_roundtrip, C06_units_truncated, the stream theorems and
+   C06_total rely, runs ttx_units_fuel with fuel = the payload length; every fuel at least that large gives the same
+   units, so the out-of-fuel value [] is never a truncated answer. *)
+Theorem C06_units_fuel_independent : forall fuel d, (length d <= fuel)%nat -> ttx_units_fuel fuel d = ttx_units d.
+Proof. intros fuel d H. unfold ttx_units. apply ttx_units_fuel_indep. exact H. Qed.
+Print Assumptions C06_units_fuel_independent.
+
+(* Independent character tables (Model/TtxStd.v: ETS 300 706 Tables 32, 35, 36 and the alphabetic columns of the Cyrillic
+   and Greek G0 sets, written by hand; positions the author is not sure of are unasserted).  On every run, against the
+   regenerated tables: for every designation the standard defines (Latin G0 with each of the 13 national options, Cyrillic
+   1-3, Greek) the reader's table equals the standard's at every asserted position; the (designation bits, C12..C14) map
+   is Table 32 with the option bits in the reader's order; Arabic and Hebrew G0 are not implemented (decoded as Latin).
+   Where the standard table is complete (all Latin designations but Turkish) cues_of reads the text off the STANDARD table
+   (g_table), and C06_std_table_is_reader_table is the bridge the stream theorems use.  The sweep found 7 groups of wrong
+   entries in the code, repaired by six fix: commits (notes/C06.md). *)
+Theorem C06_tables_are_standard : all_diffs = [].
+Proof. exact code_tables_are_standard. Qed.
+Print Assumptions C06_tables_are_standard.
+Theorem C06_designation_map_is_standard :
+  forallb (fun k => forallb (fun c => match std_designation k c with SReserved => true | _ => has_entry k c end) opts8) keys16 = true
+  /\ reserved_with_entry = [(0, 7); (1, 5); (1, 7); (2, 7); (3, 0); (3, 1); (3, 2); (3, 3); (3, 4); (3, 6)].
+Proof. exact designation_map_is_standard. Qed.
+Print Assumptions C06_designation_map_is_standard.
+Theorem C06_std_table_is_reader_table : forall tr c t, std_text_table (triplet_key tr) c = Some t -> charset_for tr c = Ok t.
+Proof. exact std_text_table_is_code. Qed.
+Print Assumptions C06_std_table_is_reader_table.
+Theorem C06_arabic_hebrew_not_implemented :
+  code_table 8 7 = code_table 0 7 /\ code_table 10 7 = code_table 0 7 /\ code_table 10 5 = code_table 0 7.
+Proof. exact arabic_hebrew_not_implemented. Qed.
